@@ -576,6 +576,10 @@ pub fn enabled(w: &World, pre: &PuObs, alpha: Alpha) -> Vec<PuOp> {
                     if let Some(pos) = pre.positions.iter().find(|x| x.receiver == w.users[B] && x.open && x.lp_asset.denom == lp) {
                         ops.push(pr(A, balanced.clone(), Some(DAY), Some(&pos.identifier), None, None));
                     }
+                    // a small locked deposit naming a position of A that holds ANOTHER pool's LP token
+                    if let Some(pos) = pre.positions.iter().find(|x| x.receiver == w.users[A] && x.open && x.lp_asset.denom != lp) {
+                        ops.push(pr(A, vec![(d(0).into(), 300), (d(1).into(), 300)], Some(pos.unlocking_duration), Some(&pos.identifier), None, None));
+                    }
                     ops.push(pr(A, balanced.clone(), Some(DAY), None, Some(B), None)); // lock for someone else: refused
                 }
             }
@@ -634,6 +638,12 @@ pub fn enabled(w: &World, pre: &PuObs, alpha: Alpha) -> Vec<PuOp> {
             if full || swapfocus {
                 // revisits a pool, and a 4-hop revisiting a denom
                 ops.push(route(B, &[("uom", "uusd", "o.cp"), ("uusd", "uom", "o.cp"), ("uom", "uusdc", "o.cp2")], 44_444, None, None));
+                // a route through one pool twice in the same direction, demanding what SimulateSwapOperations promises for it
+                // (the quote prices both visits on the same reserves, so execution delivers less: must be refused)
+                let rv = [("uom", "uusd", "o.cp"), ("uusd", "uusdc", "o.ss"), ("uusdc", "uom", "o.cp2"), ("uom", "uusd", "o.cp")];
+                if let Ok(sim) = w.query::<pm::SimulateSwapOperationsResponse, _>(&w.pool_manager, &pm::QueryMsg::SimulateSwapOperations { offer_amount: Uint128::new(900_000), operations: ops_of(&rv.iter().map(|(a, b, c)| (a.to_string(), b.to_string(), c.to_string())).collect::<Vec<_>>()) }) {
+                    ops.push(route(B, &rv, 900_000, Some(sim.return_amount.u128()), None));
+                }
                 // two hops deliver (and charge fees in) the same denom
                 ops.push(route(B, &[("uom", "uusd", "o.cp"), ("uusd", "uusdc", "o.ss"), ("uusdc", "uom", "o.cp2"), ("uom", "uusd", "o.cp")], 55_555, None, None));
             }
